@@ -517,6 +517,7 @@ int main(int argc, char **argv) {
 	if (load_program(argv[1])) { fprintf(stderr, "cannot load program\n"); return 2; }
 	mode_setup();
 	if (create_objects(argv[1])) return 2;
+	if (getenv("DVM_TRACE")) { int qi = atoi(getenv("DVM_TRACE")); trace_word = (volatile uint64_t *)((char *)Q[qi] + 56); trace_last = *trace_word; }
 	pthread_t co;
 	pthread_create(&co, 0, coordinator, 0);
 	if (use_main_queue) dispatch_main();
